@@ -17,7 +17,9 @@ RULE = ('cases = (sorted existing positions, batch of requested positions) as 64
         'adjacent doubles (gaps 1 or 2-5 ulp) around anchors incl. binade boundaries, 2^52, 2^53, subnormals, '
         'zero/negative (renumber-all path), >= 2^53, a legacy stream with duplicates and infinities, and "evolved" '
         'lists obtained by applying prepare_inserts results over and over (one spot hammered, several spots at once, '
-        'both ends); requests: '
+        'both ends), and neighbourhoods that STRADDLE a power of two (rows a few ulps on both sides of 2^k, k sampled '
+        'over the whole exponent range incl. 0.5, 1, 2, 2^52, 2^53 and the subnormal border) with BATCHES of 2-8 equal or '
+        'distinct requests for the same gap; requests: '
         'ties with existing rows, their successors, duplicates, +-inf, 0, random, and "all at one crowded spot". '
         'Every case is run through relabeling.prepare_inserts; the Gallina model must return the same patterns (or '
         'the same exception site), the certified checker `check` is evaluated in Coq on the implementation result, '
@@ -332,6 +334,9 @@ def fixed_cases():
     ([-INF], [-INF]), ([-INF], [-INF, INF]), ([-INF, 1.0], [-INF]), ([1.0, INF], [0.5]), ([1.0, INF], [INF]),
     ([-0.0, 1.0], [0.0]), ([-0.0], [-0.0]), ([1.0, 2.0], [-0.0, 0.0]),
     ([float(i + 1) for i in range(30)], [INF] * 20), ([float(i + 1) for i in range(10)], [5.0] * 30),
+    ([1.0, pf(2.0), nf(2.0), 3.0], [nf(2.0)] * 2), ([0.25, pf(0.5), nf(0.5), 0.75], [nf(0.5)] * 2),
+    ([pf(2.0), nf(2.0)], [2.0, nf(2.0), 2.0]), ([pf(pf(4.0)), nf(4.0)], [nf(4.0)] * 5),
+    ([pf(MINNORMAL), nf(MINNORMAL)], [nf(MINNORMAL)] * 3), ([pf(2.0 ** 52), nf(2.0 ** 52)], [nf(2.0 ** 52)] * 2),
     ([skip(1.0, 256), skip(1.0, 257)], [skip(1.0, 257)]), ([skip(3.0, 256), skip(3.0, 257)], [skip(3.0, 257)]),
     ([skip(1.0, 128), skip(1.0, 129)], [skip(1.0, 129)]), ([skip(1.0, 256), skip(1.0, 257), skip(1.0, 300)], [skip(1.0, 257)] * 2),
   ]
@@ -383,11 +388,76 @@ def evolved_cases(rng, nhist, steps, maxlen):
   return out
 
 
+STRADDLE_EXPONENTS = [-1, 0, 1, 2, 3, 10, 52, 53, -1022, -1021, -1023, -1060, -1073, -30, 100, 1000, 1023]
+
+
+def around_power_of_two(k, nbelow, nabove):
+  """nbelow doubles just below 2**k, 2**k itself, nabove doubles just above it (positive finite ones only)."""
+  pw = 2.0 ** k
+  below, x = [], pw
+  for _ in range(nbelow):
+    x = pf(x)
+    if not (x > 0):
+      break
+    below.append(x)
+  above, x = [], pw
+  for _ in range(nabove):
+    x = nf(x)
+    if not math.isfinite(x):
+      break
+    above.append(x)
+  return below[::-1], pw, above
+
+
+def gen_straddle(rng):
+  """A crowded neighbourhood that straddles a power of two (float spacing doubles there) and a BATCH of 2..8 requests
+  for one gap: existing rows a few ulps on both sides of 2**k, requests equal or distinct."""
+  k = rng.choice(STRADDLE_EXPONENTS) if rng.random() < 0.7 else rng.randint(-1073, 1023)
+  below, pw, above = around_power_of_two(k, 4, 4)
+  pts = below + [pw] + above
+  lo = rng.sample(below, rng.randint(1, min(2, len(below)))) if below else []
+  hi = rng.sample(above, rng.randint(1, min(2, len(above)))) if above else []
+  mid = [pw] if rng.random() < 0.25 else []
+  outer = []
+  if rng.random() < 0.5:
+    outer = [x for x in (pw / 2, pw * 1.5) if 0 < x and math.isfinite(x) and x not in pts]
+  orig = sorted(set(lo + mid + hi + outer))
+  m = rng.randint(2, 8)
+  first_above = min(hi) if hi else pw
+  style = rng.random()
+  if style < 0.45:
+    keys = [first_above] * m                       # all into the gap that contains 2**k
+  elif style < 0.6:
+    keys = [rng.choice(orig)] * m
+  elif style < 0.85:
+    inside = [x for x in pts if (not lo or x > max(lo)) and x <= first_above]
+    keys = [rng.choice(inside) for _ in range(m)]  # distinct keys, same gap
+  else:
+    keys = [rng.choice(pts + [INF, -INF]) for _ in range(m)]
+  return orig, keys
+
+
+def straddle_scope(k):
+  """All strictly increasing lists of <= 3 out of 8 consecutive doubles centred on 2**k x all batches of <= 3 requests
+  taken from those doubles (ordered batches)."""
+  import itertools
+  below, pw, above = around_power_of_two(k, 4, 3)
+  pts = below + [pw] + above
+  for n in range(0, 4):
+    for o in itertools.combinations(pts, n):
+      for m in (1, 2, 3):
+        for ks in itertools.product(pts, repeat=m):
+          yield list(o), list(ks)
+
+
 def gen_cases(ctx):
   out = [(o, k, 'fixed') for (o, k) in fixed_cases()]
   for _ in range(ctx.n(150, 8000)):
     o, mode = gen_orig(ctx.rng)
     out.append((o, gen_keys(ctx.rng, o), mode))
+  for _ in range(ctx.n(70, 4000)):
+    o, k = gen_straddle(ctx.rng)
+    out.append((o, k, 'straddle'))
   ev = evolved_cases(ctx.rng, ctx.n(8, 150), ctx.n(40, 120), ctx.n(60, 250))
   step = max(1, len(ev) // ctx.n(60, 3000))
   # a sample of the steps (all of them were run through the implementation), and every step that failed
@@ -404,10 +474,19 @@ def gen_cases(ctx):
           for m in (1, 2):
             for k in itertools.product(reqs, repeat=m):
               out.append((list(o), list(k), 'exhaustive'))
+    # around powers of two (float spacing doubles there): the whole scope goes through the implementation and the
+    # Python oracle; the batches with non-decreasing requests (and every case the oracle rejects) also go through the
+    # model and the certified checker in Coq ('#py' = implementation + oracle only)
+    for kk in (1, -1, -1022, 53):
+      for o, ks in straddle_scope(kk):
+        out.append((o, ks, 'straddle-exhaustive' if (kk == 1 and list(ks) == sorted(ks)) else 'straddle-exhaustive#py'))
     ctx.extra['exhaustive'] = True
     ctx.extra['exhaustive_space'] = ('all strictly increasing lists of <= 3 out of 6 consecutive doubles at 6 anchors '
                                      '(1.0, below 2.0, smallest subnormal, subnormal/normal border, 2^53, 0.0) x all '
-                                     'batches of <= 2 requests from those doubles and +-inf')
+                                     'batches of <= 2 requests from those doubles and +-inf; and all strictly increasing '
+                                     'lists of <= 3 out of 8 consecutive doubles centred on 2^1, 2^-1, 2^-1022, 2^53 x all '
+                                     'ordered batches of <= 3 requests from those doubles (implementation + oracle; '
+                                     'model + certified checker on the sorted batches at 2^1)')
   return out
 
 
@@ -532,14 +611,21 @@ def correspond(ctx):
               sample={'orig': orig[:6], 'keys': keys[:6], 'result': repr(r[1:3])[:200]},
               kind='%s/%s' % (mode, 'exception' if r[0] == 'exc' else ('adjusted' if r[1] else 'plain')))
   ctx.log('implementation run on %d cases' % len(coq))
+  # cases marked '#py' (the big exhaustive scope) go through the implementation and the Python oracle only, unless
+  # the oracle rejects the result: then the certified checker is asked as well
+  incoq = [i for i, c in enumerate(ctx._c20)
+           if not c[2].endswith('#py') or (c[3][0] == 'ok' and oracle(c[0], c[1], c[3][1], c[3][2]) is not None)]
   imports = ['Grist.Lib.Fl64', 'Grist.Model.Relabel']
   # 1+2 in one evaluation per case: the model returns the same patterns (or the same exception site) as the
   # implementation, and the certified checker accepts every result the implementation returned
   both = ('Definition both_bits (c : list Z * list Z * outcome) : bool :=\n'
           '  agree_bits c && (let \'(_, _, (code, _, _)) := c in if code =? 0 then check_bits c else true).')
-  bad = ctx.run_cases('both', imports, 'both_bits', coq, shard=ctx.n(50, 400), timeout=1200, extra_defs=both)
-  okidx = [i for i, c in enumerate(ctx._c20) if c[3][0] == 'ok']
+  bad = ctx.run_cases('both', imports, 'both_bits', [coq[i] for i in incoq], shard=ctx.n(50, 400), timeout=1200,
+                      extra_defs=both)
+  bad = [incoq[j] for j in bad]
+  okidx = [i for i in incoq if ctx._c20[i][3][0] == 'ok']
   ctx._c20_rejected = set()
+  ctx._c20_incoq = set(incoq)
   if bad:
     # tell the two apart on the failing cases only
     bad_model = ctx.run_cases('model', imports, 'agree_bits', [coq[i] for i in bad], shard=100, timeout=1200)
@@ -551,7 +637,8 @@ def correspond(ctx):
     rej = ctx.run_cases('cert', imports, 'check_bits', [coq[i] for i in badok], shard=100, timeout=1200)
     ctx._c20_rejected = set(badok[j] for j in rej)
   ctx.log('model + certificates evaluated in Coq')
-  ctx.extra['model_cases'] = len(coq)
+  ctx.extra['model_cases'] = len(incoq)
+  ctx.extra['implementation_cases'] = len(coq)
   ctx.extra['certified_cases'] = len(okidx) - len(ctx._c20_rejected)
   # 2b. how many of them are also covered by the proved total-correctness theorem (C20_total_no_renumbering_partial):
   #     "failing" indexes of the negated hypothesis = cases on the no-renumbering path with well-formed doubles
@@ -580,6 +667,7 @@ def search(ctx):
   if not hasattr(ctx, '_c20'):
     ctx._c20 = [(o, k, m, run_impl(o, k)) for (o, k, m) in gen_cases(ctx)]
     ctx._c20_rejected = None
+    ctx._c20_incoq = None
   # regression corpus first: witnesses of findings that were repaired in /repo must not fail again
   for k in core.load_known():
     if k['property'] == ID and k.get('kind') == 'fixed':
@@ -592,7 +680,8 @@ def search(ctx):
   for i, (orig, keys, mode, r) in enumerate(ctx._c20):
     j = judge(orig, keys, r)
     rejected = ctx._c20_rejected is not None and i in ctx._c20_rejected
-    if ctx._c20_rejected is not None and r[0] == 'ok' and (j is None) == rejected:
+    if ctx._c20_rejected is not None and r[0] == 'ok' and (j is None) == rejected and \
+       (ctx._c20_incoq is None or i in ctx._c20_incoq):
       ctx.broken('certified checker and Python oracle disagree',
                  'orig=%r keys=%r result=%r oracle=%r check=%r' % (orig, keys, r, j, not rejected))
     if j is not None:
@@ -829,6 +918,13 @@ def engine_histories(ctx):
   # the same row hammered: crowding on one spot through user actions only
   hists.append([['add', [[None, None]] * 4]] + [['before', 2]] * ctx.n(150, 1200))
   hists.append([['add', [[None, None]] * 3]] + [['before', 0]] * ctx.n(60, 300) + [['before', 1]] * 20)
+  # crowd both sides of a power of two through user actions, free the row at the power of two, then add a BATCH there:
+  # rows at 1,2,3(,4,5); n x insert above the row at p; n x insert below it; remove it; BulkAddRecord of m rows
+  for pw, rowidx in ((2.0, 1), (4.0, 3)):
+    for m in (2, 3):
+      hists.append([['add', [[None, None]] * (rowidx + 2)]] +
+                   [['add', [[bits(pw), None]]]] * 52 + [['add', [[bits(nf(pw)), None]]]] * 51 +
+                   [['remove', [rowidx]], ['add', [[bits(nf(pw)), None]] * m]])
   nsteps = 0
   for h in hists:
     r = run_history(h)
